@@ -11,6 +11,7 @@ def dispatch (line : String) : String :=
   | "c06" :: rest => (handleC06 rest).getD "err|bad-request"
   | "c07" :: rest => (handleC07 rest).getD "err|bad-request"
   | "c12" :: rest => (handleC12 rest).getD "err|bad-request"
+  | "c14" :: rest => (handleC14 rest).getD "err|bad-request"
   | "c17" :: rest => (handleC17 rest).getD "err|bad-request"
   | _ => "err|unknown-command"
 
